@@ -1,12 +1,12 @@
-import MindsVerif.Model.Plan
-/-! Line protocol driver for the join-planner bookkeeping model.
-input : <fixed 0|1> <jq>
-  jq    ::= (q <wrap 0|1> (pre <pb>*) <tree>)
-  pb    ::= (b <ret> <keep 0|1> <step>*)
-  tree  ::= (j <tree> <tree>) | (T <cte 0|1> (d <nat>*) (p <nat>*)) | (M <ts 0|1> <psize 0|1>)
-          | (S <aliased 0|1> <ret> <step>*) | (X)
-  step  ::= (s <kind> <num> (r <num>*) (u <sub>*))        sub ::= (v <kind> <num> (r <num>*))
-  kind  ::= f | ss | j | a | mr | q | o<n>                 num ::= t<n> | s<p>_<i> | none
+import MindsVerif.Model.PlanQ
+/-! Line protocol driver for the plan-bookkeeping model (`fromQuery` over the skeleton language).
+input : <fixed 0|1> <stmt>
+  stmt ::= (sel <sel>) | (cta <sel>) | (ct <0|1>) | (ins <sel>) | (insv) | (upd <sel>) | (upd0) | (del <sel>) | (oth)
+  sel  ::= (un <sel> <sel>) | (bind <sel> <sel>) | (fail <0|1>) | (whole) | (tab <cte> <u>) | (api <u> <wrap> <u>)
+         | (fn <u> <wrap> <u>) | (pred <columnsOnly> <u> <star> <u>) | (fs <sel> <wrap>) | (nat <wrap> <u>)
+         | (dat <wrap> <u>) | (ts <grouped> <two> <cte> <limit> <star> <u>) | (jt <sel> <wrap> <u>) | (dml <kind> <u>)
+         | (T <cte> (d <nat>*) <u>) | (M <ts> <psize>) | (S <aliased> <sel>) | (j <sel> <sel>)
+  u    ::= (u <nat>*)        indexes into the environment of bound results, 0 = innermost `bind`
 output: ok <answer> <step>;<step>;…     with step = kind:num:ref,ref,…:sub|sub|…  (sub = kind:num:ref,…)
       | err planning | err notimpl | err internal | bad-line -/
 open MindsVerif.Plan
@@ -29,108 +29,142 @@ def showSub (s : Sub) : String :=
 def showStep (s : Step) : String :=
   s!"{showKind s.kind}:{showONum s.num}:{",".intercalate (s.refs.map showNum)}:{"|".intercalate (s.subs.map showSub)}"
 
-def readKind (t : String) : Option Kind :=
-  if t == "f" then some .fetch else if t == "ss" then some .subselect else if t == "j" then some .join
-  else if t == "a" then some .apply else if t == "mr" then some .mapreduce else if t == "q" then some .query
-  else if t.startsWith "o" then (t.drop 1).toNat?.map .other else none
-
-def readNum (t : String) : Option (Option SNum) :=
-  if t == "none" then some none
-  else if t.startsWith "t" then (t.drop 1).toNat?.map (fun n => some (.top n))
-  else if t.startsWith "s" then
-    match (t.drop 1).toString.splitOn "_" with
-    | [p, i] => do let p ← p.toNat?; let i ← i.toNat?; pure (some (.sub p i))
-    | _ => none
-  else none
-
 def readBool (t : String) : Option Bool :=
   if t == "0" then some false else if t == "1" then some true else none
-
-partial def readNums : List String → List SNum → Option (List SNum × List String)
-  | ")" :: rest, acc => some (acc.reverse, rest)
-  | t :: rest, acc => match readNum t with | some (some n) => readNums rest (n :: acc) | _ => none
-  | [], _ => none
 
 partial def readNats : List String → List Nat → Option (List Nat × List String)
   | ")" :: rest, acc => some (acc.reverse, rest)
   | t :: rest, acc => match t.toNat? with | some n => readNats rest (n :: acc) | none => none
   | [], _ => none
 
-partial def readSubs : List String → List Sub → Option (List Sub × List String)
-  | ")" :: rest, acc => some (acc.reverse, rest)
-  | "(" :: "v" :: k :: n :: "(" :: "r" :: rest, acc => do
-    let k ← readKind k
-    let n ← readNum n
-    let (refs, rest) ← readNums rest []
-    match rest with
-    | ")" :: rest => readSubs rest (⟨k, n, refs⟩ :: acc)
-    | _ => none
-  | _, _ => none
+def readU : List String → Option (List Nat × List String)
+  | "(" :: "u" :: rest => readNats rest []
+  | _ => none
 
-partial def readSteps : List String → List Step → Option (List Step × List String)
-  | ")" :: rest, acc => some (acc.reverse, rest)
-  | "(" :: "s" :: k :: n :: "(" :: "r" :: rest, acc => do
-    let k ← readKind k
-    let n ← readNum n
-    let (refs, rest) ← readNums rest []
-    match rest with
-    | "(" :: "u" :: rest =>
-      let (subs, rest) ← readSubs rest []
-      match rest with
-      | ")" :: rest => readSteps rest (⟨k, n, refs, subs⟩ :: acc)
-      | _ => none
-    | _ => none
-  | _, _ => none
+def close : List String → Option (List String)
+  | ")" :: rest => some rest
+  | _ => none
 
-partial def readTree : List String → Option (JT × List String)
-  | "(" :: "j" :: rest => do
-    let (l, rest) ← readTree rest
-    let (r, rest) ← readTree rest
-    match rest with | ")" :: rest => some (.join l r, rest) | _ => none
+partial def readSel : List String → Option (Sel × List String)
+  | "(" :: "un" :: rest => do
+    let (l, rest) ← readSel rest
+    let (r, rest) ← readSel rest
+    let rest ← close rest
+    pure (.union l r, rest)
+  | "(" :: "bind" :: rest => do
+    let (c, rest) ← readSel rest
+    let (r, rest) ← readSel rest
+    let rest ← close rest
+    pure (.bind c r, rest)
+  | "(" :: "fail" :: b :: ")" :: rest => do pure (.fail (← readBool b), rest)
+  | "(" :: "whole" :: ")" :: rest => some (.whole, rest)
+  | "(" :: "tab" :: c :: rest => do
+    let c ← readBool c
+    let (u, rest) ← readU rest
+    let rest ← close rest
+    pure (.table c u, rest)
+  | "(" :: "api" :: rest => do
+    let (u, rest) ← readU rest
+    match rest with
+    | w :: rest =>
+      let w ← readBool w
+      let (u2, rest) ← readU rest
+      let rest ← close rest
+      pure (.apiDb u w u2, rest)
+    | _ => none
+  | "(" :: "fn" :: rest => do
+    let (u, rest) ← readU rest
+    match rest with
+    | w :: rest =>
+      let w ← readBool w
+      let (u2, rest) ← readU rest
+      let rest ← close rest
+      pure (.withFunctions u w u2, rest)
+    | _ => none
+  | "(" :: "pred" :: co :: rest => do
+    let co ← readBool co
+    let (u, rest) ← readU rest
+    match rest with
+    | st :: rest =>
+      let st ← readBool st
+      let (u2, rest) ← readU rest
+      let rest ← close rest
+      pure (.predictor co u st u2, rest)
+    | _ => none
+  | "(" :: "fs" :: rest => do
+    let (i, rest) ← readSel rest
+    match rest with
+    | w :: ")" :: rest => pure (.fromSelect i (← readBool w), rest)
+    | _ => none
+  | "(" :: "nat" :: w :: rest => do
+    let w ← readBool w
+    let (u, rest) ← readU rest
+    let rest ← close rest
+    pure (.native w u, rest)
+  | "(" :: "dat" :: w :: rest => do
+    let w ← readBool w
+    let (u, rest) ← readU rest
+    let rest ← close rest
+    pure (.data w u, rest)
+  | "(" :: "ts" :: g :: tw :: c :: l :: st :: rest => do
+    let (u, rest) ← readU rest
+    let rest ← close rest
+    pure (.ts (← readBool g) (← readBool tw) (← readBool c) (← readBool l) (← readBool st) u, rest)
+  | "(" :: "jt" :: rest => do
+    let (t, rest) ← readSel rest
+    match rest with
+    | w :: rest =>
+      let w ← readBool w
+      let (u, rest) ← readU rest
+      let rest ← close rest
+      pure (.joinTables t w u, rest)
+    | _ => none
+  | "(" :: "dml" :: k :: rest => do
+    let k ← k.toNat?
+    let (u, rest) ← readU rest
+    let rest ← close rest
+    pure (.dml k u, rest)
   | "(" :: "T" :: c :: "(" :: "d" :: rest => do
     let c ← readBool c
     let (d, rest) ← readNats rest []
-    match rest with
-    | "(" :: "p" :: rest =>
-      let (p, rest) ← readNats rest []
-      match rest with | ")" :: rest => some (.leaf (.table c d p), rest) | _ => none
-    | _ => none
-  | "(" :: "M" :: ts :: ps :: ")" :: rest => do
-    let ts ← readBool ts
-    let ps ← readBool ps
-    some (.leaf (.predictor ts ps), rest)
-  | "(" :: "S" :: al :: ret :: rest => do
+    let (u, rest) ← readU rest
+    let rest ← close rest
+    pure (.jTable c d u, rest)
+  | "(" :: "M" :: ts :: ps :: ")" :: rest => do pure (.jModel (← readBool ts) (← readBool ps), rest)
+  | "(" :: "S" :: al :: rest => do
     let al ← readBool al
-    let ret ← ret.toNat?
-    let (b, rest) ← readSteps rest []
-    some (.leaf (.subselect al b ret), rest)
-  | "(" :: "X" :: ")" :: rest => some (.bad, rest)
+    let (s, rest) ← readSel rest
+    let rest ← close rest
+    pure (.jSub al s, rest)
+  | "(" :: "j" :: rest => do
+    let (l, rest) ← readSel rest
+    let (r, rest) ← readSel rest
+    let rest ← close rest
+    pure (.jJoin l r, rest)
   | _ => none
 
-partial def readPre : List String → List (List Step × Nat × Bool) → Option (List (List Step × Nat × Bool) × List String)
-  | ")" :: rest, acc => some (acc.reverse, rest)
-  | "(" :: "b" :: ret :: keep :: rest, acc => do
-    let ret ← ret.toNat?
-    let keep ← readBool keep
-    let (b, rest) ← readSteps rest []
-    readPre rest ((b, ret, keep) :: acc)
-  | _, _ => none
-
-def readJQ : List String → Option JQ
-  | "(" :: "q" :: w :: "(" :: "pre" :: rest => do
-    let w ← readBool w
-    let (pre, rest) ← readPre rest []
-    let (t, rest) ← readTree rest
-    match rest with | [")"] => some ⟨pre, t, w⟩ | _ => none
+def readStmt : List String → Option Stmt
+  | ["(", "insv", ")"] => some .insertValues
+  | ["(", "upd0", ")"] => some (.update none)
+  | ["(", "oth", ")"] => some .other
+  | ["(", "ct", b, ")"] => (readBool b).map .createTable
+  | "(" :: tag :: rest => do
+    let (s, rest) ← readSel rest
+    match rest with
+    | [")"] =>
+      if tag == "sel" then some (.select s) else if tag == "cta" then some (.createTableAs s)
+      else if tag == "ins" then some (.insertSelect s) else if tag == "upd" then some (.update (some s))
+      else if tag == "del" then some (.delete s) else none
+    | _ => none
   | _ => none
 
 def handle (line : String) : String :=
   let padded := ((line.trimAscii.toString).replace "(" " ( ").replace ")" " ) "
   match (padded.splitOn " ").filter (· ≠ "") with
   | fx :: rest =>
-    match readBool fx, readJQ rest with
+    match readBool fx, readStmt rest with
     | some fixed, some q =>
-      match planJoin fixed q [] with
+      match fromQuery fixed q [] with
       | .ok (plan, x) => s!"ok {showNum x} " ++ ";".intercalate (plan.map showStep)
       | .error (.planning _) => "err planning"
       | .error (.notImpl _) => "err notimpl"
